@@ -48,6 +48,11 @@ func (g *GRU) Init(n *onnx.NodeProto) error {
 				activations = append(activations, string(activation))
 			}
 
+			// The forward direction needs two activation functions.
+			if len(activations) != 2 {
+				return ops.ErrInvalidAttribute(attr.GetName(), g)
+			}
+
 			g.activations = activations
 		case ops.ClipAttr:
 			return ops.ErrUnsupportedAttribute(attr.GetName(), g)
